@@ -88,7 +88,8 @@ PROPS = {
             "identity replaced only by a conflict winner, reported as Rename": "theorem (full): replaced_only_by_conflict_winner, rename_is_notified",
             "own address never active": "theorem (full, every state reachable by any history of public calls with change_identity used as documented — same address, or an address without an active record): C09H.own_address_never_active_always, C09H.own_address_never_active_step (invariant OwnInv through every model function, Proofs/OwnInv.lean); per update: own_address_never_active, C19.own_address_updates_become_down",
             "data from own identity/address rejected before any change": "theorem (full): data_from_own_address_is_rejected",
-            "payload of a superseded or Down sender discarded; never falls back to a superseded identity": "partial: follows from replaced_only_by_conflict_winner per step; whole-history statement checked by search and correspondence only",
+            "payload of a superseded or Down sender discarded": "theorem (full, any payload, any codec): dead_sender_payload_is_discarded (once the header update leaves the sender inactive the outcome is inactiveSender's, whatever follows the header)",
+            "never falls back to a superseded identity": "theorem per update (replaced_only_by_conflict_winner: a record's identity is only ever replaced by one that wins the conflict); the whole-history generation order is checked by search (max generation per address) and correspondence",
         },
         RULE_HIST + "search: per-call oracle on real instances over domains with three generations per address including the own address (duplicate addresses, active own-address records, size vs addresses told, replacement by non-winners, missing Rename, generation fallback, payload of dead senders).",
         ["change_identity is only called with an identity whose address is not currently listed (documented use); histories are not judged after a call that violates this",
@@ -113,7 +114,7 @@ PROPS = {
             "stale-epoch timeout: no effect at all": "theorem (full): stale_timeout_is_noop",
             "cancelled timeout: no state change, no datagram (no TurnUndead), no notification": "theorem (full, for states whose connection state agrees with the member count): cancelled_timeout_is_noop, unsuccessful_summary_is_silent - false before the fix: commit for finding F2",
             "Down never changes": "theorem (full): down_is_terminal, C01.down_is_final",
-            "effective timeout: MemberDown, Down gossip, forget timer, TurnUndead; forget-timer removes exactly that identity": "partial: search oracle (complete case table on the real crate) and correspondence",
+            "effective timeout: MemberDown, Down gossip, forget timer, TurnUndead; forget-timer removes exactly that identity": "theorem (full): effective_timeout (exact effects in order: forget-timer, MemberDown, Down update enqueued with full transmissions, connection state re-evaluated, TurnUndead iff notify_down_members), forget_timer_removes_exactly_that_identity, forget_timer_for_another_identity_is_noop",
         },
         RULE_HIST + "search: per-call oracle judging every ChangeSuspectToDown timer the instance itself scheduled (effective vs cancelled vs stale), plus Down-finality tracking across the history.",
         ["a duplicate delivery of a timeout after its record was forgotten and an older identity of the address reappeared is the documented excluded point (the timer's identity wins the conflict)"],
@@ -138,7 +139,7 @@ PROPS = {
             "success only on an Ack of the current number from the probed member or a ForwardedAck from an asked, not yet counted helper": "theorem (full): succeeded_iff, ack_counts_only_from_target, ack_changes_only_the_flag, forwarded_ack_counts_only_from_asked, failed_only_without_evidence, start_resets_evidence (over the generated Probe::succeeded)",
             "indirect requests: only without Ack, at most num_indirect_probes, distinct... active members, never the target": "theorem (full): indirect_helpers, indirect_timer_guards ('distinct' follows from one-record-per-address, C09)",
             "Ping answered with Ack of the same number; relay preserves origin, target and number; requests naming the instance rejected": "theorem (full): ping_is_acked, ping_req_is_relayed, indirect_ping_is_answered, indirect_ack_is_forwarded, relay_for_ourselves_is_rejected",
-            "failed round: probed member becomes Suspect and exactly one suspicion timeout is scheduled": "partial: search oracle (round tracking on the real crate) and correspondence; no whole-round theorem yet",
+            "failed round: probed member becomes Suspect and exactly one suspicion timeout is scheduled": "theorem (full): failed_round_schedules_exactly_one_timeout (exactly one ChangeSuspectToDown for that identity, incarnation and epoch, also when the member was already Suspect), unanswered_member_becomes_suspect, refuted_member_is_left_alone, failed_round_forgotten_member; that a round without evidence is what take_failed reports: failed_only_without_evidence",
         },
         RULE_HIST + "search: round-tracking oracle on real instances: evidence seen (Ack/ForwardedAck sender x probe number x timing) vs. the probe state and the outcome of the next probe timer, PingReq fan-out, the reply table and the four IndirectForOurselves rejections.",
         ["histories stop being judged after an Encode error; a round whose probe timer call returns an error is not judged"],
@@ -185,7 +186,7 @@ PROPS = {
             "receiver hands the handler exactly the items, in order, with the sender": "theorem (one loop iteration, full): receive_loop_step",
             "broadcast(): nothing when empty; at most num_indirect_probes eligible active targets": "theorem (full): broadcast_with_empty_backlog, broadcast_targets",
             "whole-history bound of max_transmissions per item": "theorem (full, arbitrary handler key type and invalidation relation, histories of any length): C16H.item_written_at_most_its_transmissions, C16H.item_at_most_max_transmissions, C16H.each_item_written_costs_one_transmission (Proofs/LifetimeG.lean) and C16H.custom_backlog_changes_only_by_enqueue_and_fill (Proofs/CustomReach.lean)",
-            "broadcast() stops when drained": "partial: search oracle and correspondence",
+            "broadcast() stops when drained": "theorem (full): broadcast_stops_when_drained, broadcast_continues_while_pending, broadcast_with_empty_backlog",
         },
         RULE_HIST + "search: table-driven handlers (four invalidation relations, recipient deny masks), items of 1..7 bytes, hooked backlog accounting, handler call log compared with the items of every accepted datagram.",
         ["the handler derives the key from the item bytes alone (harness handlers do); BroadcastHandler does not panic"],
